@@ -705,6 +705,112 @@ async fn check_new_queue_id(
     }
 }
 
+/// The real start path (`init_hq_server`, the entry point of `hq server start`) on a copy of the
+/// complete journal, with a freshly generated access-file UID as configuration: the server has to
+/// come up, keep the UID recorded in the journal, and give a new job an id that the journal does
+/// not mention. Runs on its own thread with a real (unpaused) runtime and loopback sockets.
+fn real_start_check(journal: &Path, dir: &Path) -> Result<(String, u32), String> {
+    use hyperqueue::client::globalsettings::GlobalSettings;
+    use hyperqueue::client::output::quiet::Quiet;
+    use hyperqueue::server::bootstrap::{ServerConfig, get_client_session, init_hq_server};
+    use hyperqueue::transfer::messages::{FromClientMessage, SubmitResponse, ToClientMessage};
+    let server_dir = dir.join("realboot-server-dir");
+    let _ = std::fs::remove_dir_all(&server_dir);
+    std::fs::create_dir_all(&server_dir).map_err(|e| format!("{e:?}"))?;
+    let jcopy = dir.join("realboot.bin");
+    std::fs::copy(journal, &jcopy).map_err(|e| format!("{e:?}"))?;
+    let sd = server_dir.clone();
+    let h = std::thread::Builder::new()
+        .stack_size(32 << 20)
+        .spawn(move || -> Result<(String, u32), String> {
+            let rt = tokio::runtime::Builder::new_current_thread()
+                .enable_all()
+                .build()
+                .map_err(|e| format!("{e:?}"))?;
+            let local = tokio::task::LocalSet::new();
+            rt.block_on(local.run_until(async move {
+                let gsettings = GlobalSettings::new(sd.clone(), Box::new(Quiet));
+                let cfg = ServerConfig {
+                    worker_host: "localhost".to_string(),
+                    client_host: "localhost".to_string(),
+                    idle_timeout: None,
+                    client_port: None,
+                    worker_port: None,
+                    journal_path: Some(jcopy.clone()),
+                    journal_flush_period: std::time::Duration::from_secs(30),
+                    worker_secret_key: None,
+                    client_secret_key: None,
+                    server_uid: Some("zzzzzz".to_string()),
+                    scheduler_mip_time_limit: std::time::Duration::from_secs(5),
+                };
+                let server = init_hq_server(&gsettings, cfg);
+                let client = async {
+                    let mut tries = 0;
+                    let mut session = loop {
+                        match get_client_session(&sd).await {
+                            Ok(s) => break s,
+                            Err(e) => {
+                                tries += 1;
+                                if tries > 200 {
+                                    return Err(format!("no client session: {e:?}"));
+                                }
+                                tokio::time::sleep(std::time::Duration::from_millis(25)).await
+                            }
+                        }
+                    };
+                    let info = hyperqueue::rpc_call!(
+                        session.connection(),
+                        FromClientMessage::ServerInfo,
+                        ToClientMessage::ServerInfo(r) => r
+                    )
+                    .await
+                    .map_err(|e| format!("server info: {e:?}"))?;
+                    let req = crate::sim::palette::array_submit(
+                        None,
+                        crate::sim::palette::int_array(&[0]),
+                        None,
+                        crate::sim::palette::request(0),
+                        crate::sim::palette::task_description(0, Default::default(), None),
+                        None,
+                        "after-restart",
+                    );
+                    let resp = hyperqueue::rpc_call!(
+                        session.connection(),
+                        FromClientMessage::Submit(req, None),
+                        ToClientMessage::SubmitResponse(r) => r
+                    )
+                    .await
+                    .map_err(|e| format!("submit: {e:?}"))?;
+                    let job = match resp {
+                        SubmitResponse::Ok { job, .. } => job.info.id.as_num(),
+                        other => return Err(format!("submit refused: {other:?}")),
+                    };
+                    hyperqueue::client::server::client_stop_server(session.connection())
+                        .await
+                        .map_err(|e| format!("stop: {e:?}"))?;
+                    Ok((info.server_uid, job))
+                };
+                match tokio::time::timeout(std::time::Duration::from_secs(60), async {
+                    tokio::join!(server, client)
+                })
+                .await
+                {
+                    Err(_) => Err("the real server did not finish within 60 s".to_string()),
+                    Ok((sres, cres)) => {
+                        let c = cres?;
+                        sres.map_err(|e| format!("server ended with an error: {e:?}"))?;
+                        Ok(c)
+                    }
+                }
+            }))
+        })
+        .map_err(|e| format!("{e:?}"))?;
+    match h.join() {
+        Ok(r) => r,
+        Err(_) => Err("the real start path panicked".to_string()),
+    }
+}
+
 fn copy_prefix(src: &Path, dst: &Path, len: u64) -> std::io::Result<()> {
     let data = std::fs::read(src)?;
     let n = (len as usize).min(data.len());
@@ -759,6 +865,52 @@ pub async fn restore_phase(sim: &mut Sim, seed: u64) {
     let cut_path = params.dir.join("cut.bin");
     let mut rng = seed ^ 0x5DEECE66D;
     let file_len = std::fs::metadata(&path).map(|m| m.len()).unwrap_or(0);
+
+    // ---- the real start path on the complete journal (one case in eight)
+    if sim.genv >= 1 && seed % 8 == 0 && !events.is_empty() {
+        let f = fold(&events);
+        match real_start_check(&path, &params.dir) {
+            Ok((uid, job)) => {
+                let mut obs = obs_rc.borrow_mut();
+                obs.class("real-start-path");
+                if let Some(juid) = &f.server_uid {
+                    if &uid != juid {
+                        alarm(
+                            &mut obs,
+                            "C11",
+                            "server uid not kept across the restart",
+                            format!("real start path with a regenerated access file: journal {juid}, server runs as {uid}"),
+                        );
+                    }
+                }
+                if job <= f.max_job_id {
+                    alarm(
+                        &mut obs,
+                        "C11",
+                        "job id reused after restart",
+                        format!("real start path: new job id {job}, journal mentions job {}", f.max_job_id),
+                    );
+                }
+            }
+            Err(e) => {
+                // environment problems (sockets) must not turn into alarms: only a refusal or a
+                // crash of the start itself is judged
+                let env = ["ddress", "bind", "ocket", "ermission", "too many open"]
+                    .iter()
+                    .any(|w| e.contains(w));
+                if (e.contains("ended with an error") || e.contains("panicked")) && !env {
+                    alarm(
+                        &mut obs_rc.borrow_mut(),
+                        "C10",
+                        "restart from the journal fails",
+                        format!("real start path on the complete journal: {e}"),
+                    );
+                } else {
+                    obs_rc.borrow_mut().class(&format!("real-start-path-skipped: {}", e.chars().take(60).collect::<String>()));
+                }
+            }
+        }
+    }
 
     // ---- C12: pruned file vs shadow (unpruned) journal
     if sim.world.journal.prunes > 0 {
